@@ -432,7 +432,8 @@ uint32_t IPv6::calculate_headers_size() const {
 }
 
 void IPv6::write_header(const ext_header& header, OutputMemoryStream& stream) {
-    const uint8_t length = header.length_field() / 8;
+    // in units of 8 octets, not counting the first 8: the size of this header once padded
+    const uint8_t length = static_cast<uint8_t>((header.data_size() + sizeof(uint8_t) * 2 + get_padding_size(header)) / 8 - 1);
     stream.write(header.option());
     stream.write(length);
     stream.write(header.data_ptr(), header.data_size());
